@@ -17,7 +17,8 @@ KANI = {
                 text={"dec": "K1: for every byte string of <= 35 bytes with this first-byte range: decode either fails or yields an instruction whose encoding is exactly the consumed prefix; never panics",
                       "enc": "K2: encode(op) followed by two arbitrary bytes decodes back to op, consuming exactly the encoding"},
                 sources=["lib/melvm/src/opcode.rs", "lib/melvm/Cargo.toml", "Cargo.lock"], slow=["enc_dec_pushi", "enc_dec_pushic", "enc_dec_pushb"],
-                timeout=3600),
+                timeout=3600, quick_timeout=900),   # quick tier: the fourteen harnesses it runs take <= 330 s each on the pinned tree; an edit that makes CBMC
+                                                    # run away is undecided after 15 min each (the stored real-code witnesses then run), never an alarm
 }
 
 
@@ -63,7 +64,7 @@ def run(prop, tier):
             t0 = time.time()
             cmd = ["cargo", "kani", "-Z", "function-contracts", "-Z", "stubbing", "--harness", h]
             try:
-                p = subprocess.run(cmd, cwd=crate, env=env, capture_output=True, text=True, timeout=cfg["timeout"])
+                p = subprocess.run(cmd, cwd=crate, env=env, capture_output=True, text=True, timeout=cfg["timeout"] if tier == "thorough" else cfg["quick_timeout"])
                 txt = p.stdout + p.stderr
             except subprocess.TimeoutExpired:
                 return h, "undecided", "timeout", time.time() - t0, " ".join(cmd)
